@@ -58,11 +58,12 @@ CLAIMED = {
         design="6/C07", technique="Lean 4 proof (decision tables + exact arithmetic + rounding bounds) + bit-exact correspondence on exact-arithmetic operand sets"),
     "C12": dict(
         text="Lean theorems over all batch histories and momenta: the code's update equals the exponential moving average initialised by the first batch whenever no intermediate value equals the sentinel 1 (counter-example theorem for the sentinel), adoption of a quantized input's scale, first-batch and momentum-0 laws, single-batch non-saturation from C03. "
-             "The float arithmetic of the update (scalar cast to float32, 1-m in double) is modelled bit-exactly; per-batch ranges recorded by harness hooks are folded by the model and compared with the module buffers bit for bit, for both scales, three dtypes and activation qtypes, chained modules, several contexts, streamline on/off.",
+             "The float arithmetic of the update (scalar cast to float32, 1-m in double) is modelled bit-exactly; per-batch ranges max|t|/qmax computed by the harness itself are folded by the model and compared with the module buffers bit for bit, for both scales, three dtypes and activation qtypes, chained modules, several contexts, streamline on/off. "
+             "The streamline bookkeeping (which modules keep quantized activations) is modelled and proved (required iff some gated call returned a quantized tensor; monotone; order independent) and tied through a spy subclass.",
         design="6/C12", technique="Lean 4 proof by induction over histories + bit-exact correspondence of recorded histories"),
     "C13": dict(
         text="Lean theorems: for every well-nested trace of contexts (any depth and length, exits by exception included) the hook registries and the mode stack are restored to their previous content (induction on the trace with a freshness invariant on handle ids), nested exits keep the outer context installed, the event machine used by the harness equals the structural definition; "
-             "write-set tables of the inference/quantization entry points are regenerated from the source text each run and checked empty by decide. Correspondence: torch's real global registries and mode stack after every enter/exit of random traces; bit-level snapshots of state_dict, qtypes and float sources around forwards, quantize, freeze and library calls; repeated evaluation bit-identical.",
+             "write-set tables of the inference/quantization entry points are regenerated from the source text each run and checked empty by decide. Correspondence: torch's real global registries and mode stack after every enter/exit of random traces; bit-level snapshots of state_dict, qtypes and float sources around forwards (also with in-place steps between modules), quantize, freeze and library calls over qtype x axis x group size and subnormal scales; repeated evaluation bit-identical; the disable_extensions switch along nested traces against its model.",
         design="6/C13", technique="Lean 4 proof by induction on well-nested traces + regenerated write-set tables + state-snapshot differential checks"),
     "C08": dict(
         text="Lean theorems by structural induction over module trees: quantize() replaces exactly the selected eligible leaves (Linear, Conv2d, LayerNorm only with activations) by twins carrying the same identity and leaves everything else untouched, for every tree, filter and qtype; the branch trace of QModuleMixin.forward for the four input/activation cases. "
